@@ -344,8 +344,7 @@ func (x *Exec) loopModSet(li *loopInfo, h *ssa.BasicBlock) (map[string]bool, boo
 					x.modelMods(mods)
 					return
 				}
-				x.ghostCallMods(mods)
-				return
+				return // interface method of unknown type: no function value is called
 			}
 			if b, ok := common.Value.(*ssa.Builtin); ok {
 				switch b.Name() {
@@ -372,7 +371,9 @@ func (x *Exec) loopModSet(li *loopInfo, h *ssa.BasicBlock) (map[string]bool, boo
 				callee = mc.Fn.(*ssa.Function)
 			}
 			if callee == nil {
-				x.ghostCallMods(mods)
+				if x.pureRoleName(common.Value.Type()) == "" {
+					x.ghostCallMods(mods)
+				}
 				return // unknown function value: assumed not to touch module state
 			}
 			if _, ok := models[ssaFullName(callee)]; ok {
